@@ -40,6 +40,9 @@ def claimed():
     return [p for p in ALL if (HERE / "rules" / f"{p.lower()}.py").exists()]
 
 
+STATE_BLIND_RULES = {("C03", "R6"), ("C13", "R3")}
+
+
 def _findings_through_new_helpers(repo, findings):
     """-> [(finding, helper qualname)] for findings located in a function that directly calls a repository function which
     is not in the pinned inventory (sa/baseline_functions.json) and is still present after inlining"""
@@ -113,7 +116,9 @@ def _findings_through_new_helpers(repo, findings):
                     # a closure defined inside a pinned function but not pinned itself
                     hit = nf.qualname
         # the function (or a new helper it calls) consults state added after the pinned inventory
-        if hit is None and new_attrs:
+        # (only for rules that compare symbolic arithmetic with a specification -- a value read from unknown state makes the
+        # comparison meaningless; rules that reason about a state-dependent *condition* going either way are about that state)
+        if hit is None and new_attrs and (f.prop, f.rule) in STATE_BLIND_RULES:
             scope = [owner]
             for c in repo.calls_in(owner):
                 try:
